@@ -6010,6 +6010,12 @@ class FlowIRConcrete(object):
                 return self._cache[cache_label]
 
         component = self.get_component(comp_id)
+        # VV: Fields that are derived from other fields (workflowAttributes.isRepeat from repeatInterval) are stored in the
+        # definition of the component when it is loaded/added. The definition may have been updated since then
+        # (set_component_option(), get_component(return_copy=False), update_component()): refresh the derived fields of
+        # this private copy exactly like loading the component does, so that every flavour of this query agrees with a
+        # FlowIRConcrete that is built from raw()
+        component = FlowIR.inject_default_values_to_component(component, all_values=False)
         variables = self.get_component_variables(
             comp_id,
             platform=platform,
